@@ -968,7 +968,19 @@ where
 	C: NodeClient + 'a,
 	K: Keychain + 'a,
 {
-	update_outputs(wallet_inst.clone(), keychain_mask, true)?;
+	// the repair below works across accounts, so bring the outputs of every
+	// account (not only the active one) up to date with the node first
+	{
+		wallet_lock!(wallet_inst, w);
+		let acct_paths: Vec<Identifier> = w.acct_path_iter().map(|m| m.path).collect();
+		for parent_key_id in acct_paths {
+			if let Err(Error::InvalidKeychainMask) =
+				updater::refresh_outputs(&mut **w, keychain_mask, &parent_key_id, true)
+			{
+				return Err(Error::InvalidKeychainMask);
+			}
+		}
+	}
 	let tip = {
 		wallet_lock!(wallet_inst, w);
 		w.w2n_client().get_chain_tip()?
